@@ -31,7 +31,7 @@ ASSUMPTIONS = [
     "because the receiver cannot know the packet is a data packet",
     "verdict window: the cycle the last CRC32 byte arrives, or the cycle after it (allows a registered report)",
 ]
-BOUNDS = "BMC from reset, one query per scripted framing (K = script length + 3, 14..30): quick 9 framings (lengths 0,1,2,3,4,5,8; gap before CRC / in header / in payload / before DPPSTART; second packet; bad header; non-data header); thorough: every length 0..9 x one invalid cycle at every position, gaps everywhere, three packets back to back"
+BOUNDS = "BMC from reset, one query per scripted framing (K = script length + 3, 14..30): quick 8 framings (lengths 0,1,2,3,4,5; gap before CRC / in header / in payload / before DPPSTART; second packet; bad header; non-data header); thorough: every length 0..9 x one invalid cycle at every position, gaps everywhere, three packets back to back"
 OUTSIDE = "ill-framed payloads (K symbols inside the payload, missing END framing, DPPABORT/EDB endings); payloads " \
           "longer than the depth allows (~ (K-8)*4 bytes); a DATA header not followed by DPPSTART but directly by HPSTART"
 
@@ -210,12 +210,15 @@ def _cfgs(tier):
         ("len3_gap_in_header", [P(3, gaps=[3], idle=2)], ok + ["partial_word_out"]),
         ("len4_then_zlp", [P(4), P(0, idle=2)], ok + ["tracked_word", "second_verdict"]),
         ("len5_gap_in_payload", [P(5, gaps=[7], idle=2)], ok + ["tracked_word", "partial_word_out"]),
-        ("len8_gap_before_dpp", [P(8, gaps=[5, 8], idle=2)], ok + ["tracked_word"]),
-        ("hdrbad_len4_then_len1", [P(4, hdr="bad"), P(1, gaps=[6], idle=2)], ok + ["hdr_bad"]),
-        ("notdata_len2_then_zlp", [P(2, hdr="notdata"), P(0, gaps=[6], idle=2)], ok + ["not_data"]),
+        # packets whose header the DUT must reject come last: their symbolic reject decision must not sit between
+        # two CRC computations (see module docstring)
+        ("len1_then_hdrbad_len4", [P(1, gaps=[6]), P(4, hdr="bad", idle=2)], ok + ["hdr_bad"]),
+        ("zlp_then_notdata_len2", [P(0, gaps=[6]), P(2, hdr="notdata", idle=2)], ok + ["not_data"]),
     ]
     if tier == "thorough":
-        cf += [("len7_gap_before_crc", [P(7, gaps=[8], idle=2)], ok + ["partial_word_out"]),
+        cf += [("len8_gap_before_dpp", [P(8, gaps=[5, 8], idle=2)], ok + ["tracked_word"]),
+               ("hdrbad_len4_then_len1", [P(4, hdr="bad"), P(1, gaps=[6], idle=2)], ok + ["hdr_bad"]),
+               ("len7_gap_before_crc", [P(7, gaps=[8], idle=2)], ok + ["partial_word_out"]),
                ("hp_only_then_len4", [P(None), P(4, gaps=[6, 7], idle=2)], ok)]
     if tier == "thorough":
         # every length 0..9 x one invalid cycle at every position of the packet (incl. none)
